@@ -449,41 +449,24 @@ Proof.
   intros Hw Hk. unfold wf_key in Hk.
   apply andb_true_iff in Hk as [Hk Hsep]. apply andb_true_iff in Hk as [Hn He].
   apply negb_true_iff in Hsep.
-  unfold wf_name in Hn. apply andb_true_iff in Hn as [Hn1 Hn2].
-  apply negb_true_iff in Hn1, Hn2.
+  unfold wf_name in Hn. apply negb_true_iff in Hn. rename Hn into Hn2.
   destruct (wf_env_props env He) as [Hnd Hge].
   pose proof (good_esc_goodv env Hge) as Hgv.
   unfold matches. rewrite (cut_sep_id _ Hsep).
   set (key := make_key name env).
   assert (Hshape : key = seg0 name ++ match env with [] => [] | _ => COMMA :: body env end)
     by (apply key_shape; auto).
-  assert (Hlen : key <> [] -> (length (body env) < length key)%nat).
-  { intros Hne. rewrite Hshape in *. rewrite app_length.
-    destruct env; simpl length in *.
-    - destruct (seg0 name); [rewrite app_nil_r in Hne; congruence | simpl; lia].
-    - lia. }
-  assert (Hcases : key = [] \/ key <> []) by (destruct key; [left | right]; congruence).
-  destruct Hcases as [Hk0|Hne].
-  { (* empty key: no tags at all *)
-    rewrite Hk0. simpl.
-    destruct env as [|kv r].
-    - unfold holds. rewrite <- final_mresp.
-      rewrite mresp_none_initial; auto.
-    - rewrite Hk0 in Hshape. destruct (seg0 name); discriminate. }
-  specialize (Hlen Hne).
-  rewrite walk_S by exact Hne.
   destruct (has_bsl key) eqn:Hbsl.
-  - (* escaped variant *)
-    assert (Hpop : pop_esc key = (None, None, body env)).
+  - (* escaped variant: the measurement segment is popped and dropped *)
+    assert (Hpop : snd (pop_esc key) = body env).
     { unfold pop_esc. rewrite Hshape.
       assert (C1 : cut_esc COMMA false (seg0 name) = None).
       { unfold seg0. rewrite esc_meas_escf. apply cut_esc_escf_none; reflexivity. }
-      assert (C2 : cut_esc EQ false (seg0 name) = None).
-      { apply cut_esc_notin. apply seg0_no_eq; auto. }
       destruct env as [|kv r].
-      - rewrite app_nil_r, C1, C2. reflexivity.
+      - rewrite app_nil_r, C1. destruct (cut_esc EQ false (seg0 name)) as [[t v]|]; reflexivity.
       - rewrite cut_esc_app by exact C1. rewrite seg0_lastb by exact Hn2.
-        cbn [cut_esc]. rewrite N.eqb_refl. simpl andb. cbv iota. rewrite app_nil_r, C2. reflexivity. }
+        cbn [cut_esc]. rewrite N.eqb_refl. simpl andb. cbv iota. rewrite app_nil_r.
+        destruct (cut_esc EQ false (seg0 name)) as [[t v]|]; reflexivity. }
     rewrite Hpop.
     apply (tail_correct pop_esc (Forall good_esc)); auto.
     + intros kv r H; inversion H; auto.
@@ -501,13 +484,13 @@ Proof.
     { unfold seg0 in *. rewrite esc_meas_escf in *.
       destruct (has_bsl_escf _ _ Hb0) as [E1 N1]. rewrite E1. intros Hin.
       apply N1 in Hin. discriminate. }
-    assert (Hpop : pop_plain key = (Some (seg0 name), None, body env)).
+    assert (Hpop : snd (pop_plain key) = body env).
     { unfold pop_plain. rewrite Hshape.
-      assert (C2 : cut EQ (seg0 name) = (seg0 name, None)).
-      { apply cut_notin. apply seg0_no_eq; auto. }
       destruct env as [|kv r].
-      - rewrite app_nil_r, (cut_notin COMMA) by exact Hnc. rewrite C2. reflexivity.
-      - rewrite cut_found by exact Hnc. rewrite C2. reflexivity. }
+      - rewrite app_nil_r, (cut_notin COMMA) by exact Hnc.
+        destruct (cut EQ (seg0 name)) as [t v]. reflexivity.
+      - rewrite cut_found by exact Hnc.
+        destruct (cut EQ (seg0 name)) as [t v]. reflexivity. }
     rewrite Hpop.
     set (PP := fun e : tagset => Forall goodv e /\ has_bsl (body e) = false).
     assert (Pt : forall kv r, PP (kv :: r) -> PP r).
@@ -521,19 +504,9 @@ Proof.
                  pop_plain (body (kv :: r)) = (Some (fst kv), Some (snd kv), body r)).
     { intros kv r [H1 H2]. inversion H1; subst. apply pop_plain_body; auto. }
     assert (HPP : PP env) by (split; auto).
-    destruct (tracked p (seg0 name)).
-    + cbv zeta.
-      set (g1 := upd g_empty (seg0 name) None).
-      assert (Hg1 : forall k, g1 k = None).
-      { intros k. unfold g1, upd, g_empty. destruct (bytes_eqb (seg0 name) k); reflexivity. }
-      destruct (update_spec rm g1 (compile p) (cv_compile rm g1 p)) as (U1 & U2 & U3).
-      destruct (update rm g1 (compile p)) as [rs root1]. simpl in U1, U2, U3.
-      rewrite erase_compile in U1, U3.
-      rewrite mresp_none_initial in U1; auto. subst rs.
-      apply (tail_correct pop_plain PP); auto.
-    + apply (tail_correct pop_plain PP); auto.
-      * apply cv_compile.
-      * apply erase_compile.
+    apply (tail_correct pop_plain PP); auto.
+    + apply cv_compile.
+    + apply erase_compile.
 Qed.
 
 End Main.
